@@ -35,8 +35,21 @@ def streams(rng, tier, ctx):
                 # one Reliable packet followed, in the same tick, by a burst of small packets that crosses the encoding thresholds of
                 # the parent-lead fields (window parent lead 127/128/129, channel parent lead 255/256/257) while it is unacknowledged
                 cfg["pw"] = 4096; cfg["fw"] = 4096; cfg["allocA"] = cfg["allocB"] = 1_000_000; cfg["bwA"] = cfg["bwB"] = 20_000_000
+            slowlink = (i % 8 == 3)
+            if slowlink:
+                # round-7 family (changes C05-g / C02-d): a round trip longer than the sync timeout and a frame window of a few frames;
+                # a burst of single-frame Unreliable / TimeSensitive-free packets larger than the window: the packets behind the window
+                # have their sequence ids but wait in the pending queue when the sync timer fires - the ideal network loses nothing,
+                # so every one of them has to arrive, in order
+                cfg["fw"] = r.pick([2, 4, 4, 8]); cfg["pw"] = r.pick([64, 4096]); cfg["allocA"] = cfg["allocB"] = 1_000_000
+                cfg["bwA"] = cfg["bwB"] = 20_000_000
             sim = Sim(r, cfg, inter=it)
             lat = r.pick([0, 1_000_000, 20_000_000, 150_000_000]) if not big else r.pick([0, 1_000_000, 5_000_000])
+            if slowlink:
+                lat = r.pick([1_200_000_000, 1_500_000_000, 2_500_000_000])
+                for _ in range(cfg["fw"] + r.range(1, 4)):
+                    sim.send("A", r.below(2), r.pick([1, 1, 1, 2]), r.pick([1448, 1400, 1200]))
+                sim.run(int(12_000_000_000 // 50_000_000), 50_000_000, Net(latency=lat), Net(latency=lat))
             if burst:
                 lat = r.pick([5_000_000, 20_000_000])
                 def warm(sim, ep):
